@@ -51,6 +51,8 @@ func rulesC11(c *Ctx) {
 	// the value the literal "" is compared with: an empty string stored in the database decodes as "", not as null
 	c.As("C13.NIL", "C11.EMPTYDECODE", func() { ruleC13Nil(c) })
 	ruleLiteralNotRecast(c, "C11.NORECAST")
+	ruleConstNodesImmutable(c, "C11.CONSTIMMUTABLE")
+	ruleInArrayExact(c, "C11.INEXACT")
 	// --- grammar table -------------------------------------------------------------------
 	g4, err := os.ReadFile(filepath.Join(p.Root, "zitiql", "ZitiQl.g4"))
 	if err != nil {
